@@ -115,23 +115,28 @@ impl IoLoopHandle {
         self.send(IoLoopMessage::Send(buf))
     }
 
-    pub(super) fn send_content_header(
+    /// Send `method` together with the content header and body frames that belong to it as a
+    /// single message to the I/O thread. The I/O thread writes frames of its own on this
+    /// channel (e.g., basic.cancel-ok in answer to a server-initiated cancel); handing it the
+    /// frames one by one would allow such a frame to end up between them.
+    pub(super) fn send_with_content<M: IntoAmqpClass>(
         &mut self,
+        method: M,
         class_id: u16,
-        len: usize,
         properties: &AmqpProperties,
+        mut content: &[u8],
+        max_body_len: usize,
     ) -> Result<()> {
-        debug_assert!(self.buf.is_empty());
-        self.buf
-            .push_content_header(self.channel_id, class_id, len, properties);
-        let buf = self.buf.drain_into_new_buf();
-        self.send(IoLoopMessage::Send(buf))
-    }
-
-    pub(super) fn send_content_body(&mut self, content: &[u8]) -> Result<()> {
-        debug_assert!(self.buf.is_empty());
-        self.buf.push_content_body(self.channel_id, content);
-        let buf = self.buf.drain_into_new_buf();
+        let mut buf = OutputBuffer::empty();
+        buf.push_method(self.channel_id, method);
+        buf.push_content_header(self.channel_id, class_id, content.len(), properties);
+        while content.len() > max_body_len {
+            buf.push_content_body(self.channel_id, &content[..max_body_len]);
+            content = &content[max_body_len..];
+        }
+        if !content.is_empty() {
+            buf.push_content_body(self.channel_id, content);
+        }
         self.send(IoLoopMessage::Send(buf))
     }
 
